@@ -325,6 +325,7 @@ def run_case_corpus(ch: Choices, params: dict) -> dict:
            "probes": probes, "keys": [shape],
            "nontrivial_keys": [shape] if len(set(history)) >= 3 else [],
            "extra": {"corpus_histories": 1},
+           "sets": {"corpus_items_run": sorted({poolsel[pi] for pi in history})},
            "trace": {"corpus_pool": poolsel, "history": rendered}}
     if viol or ch.record[0] % 16 == 0:
         res["sample"] = {"corpus_history": rendered[:20]}
@@ -469,6 +470,7 @@ def run_case(ch: Choices, params: dict) -> dict:
     res = {"violations": viol, "digest": log.digest(), "steps": steps, "faults": faults,
            "probes": probes, "keys": [shape], "nontrivial_keys": [shape] if nontrivial else [],
            "extra": {"pool_defs": len(pool), "modules": len(mods)},
+           "sets": {"mistake_kinds_planted": sorted(faults)},
            "trace": {"modules": [p["source"] for p in progs],
                      "pool": [f"m{mi}.{n}" for mi, n in pool], "history": rendered}}
     if viol or ch.record[0] == 0 and ch.record[-1] % 9 == 0:
